@@ -95,6 +95,14 @@ class Speller:
                     if cls == "g":
                         s = "g_" + s[2:] if len(s) > 2 else s
                     s = s[:w]
+            if self.style == "nearspecial" and attempt < 40:
+                # names that are substrings / near misses of the few names the tool treats specially
+                specials = ["environ", "defined", "__attribute__", "include", "typedef", "main", "sizeof", "return", "static", "NULL"]
+                cands = sorted({w0[i:i + w] for w0 in specials for i in range(len(w0) - w + 1) if w <= len(w0)})
+                cands = [c for c in cands if c[0].isalpha() or c[0] == "_"]
+                if cands and cls in ("v", "p", "f", "fld", "g", "m"):
+                    c0 = r.choice(cands)
+                    s = c0.upper() if cls == "m" else (("g_" + c0[2:]) if cls == "g" else c0.lower())
             if self.style == "kwprefix" and attempt < 40 and cls in ("v", "p", "f", "fld") and w >= 4:
                 pre = r.choice([k for k in ("int", "if", "for", "do", "return", "while", "else", "char", "void") if len(k) < w])
                 s = (pre + self._ident(r, w - len(pre), LOW + "_", LOW + string.digits + "_"))[:w]
@@ -179,6 +187,8 @@ class Speller:
             s = s[:-1] + "-"
         if self.quoted_class in ("operators", "mixed") and len(s) >= 2 and self._r(self.quoted_seed, "end").random() < 0.5:
             s = s[:-1] + "/"        # adversarial ending: the text touches the closing delimiter with a slash
+            if s[-2] in "*/":       # ... without forming a delimiter itself
+                s = s[:-2] + "-/"
         return s
 
     def typ(self, w):
